@@ -32,8 +32,21 @@ ALL_FILES = ["f", "g", "sp", "s", "sec", "L1", "idx"]
 DIR_ENTRIES = {"root": {"a", "g", "s p"}, "a": {"f"}, "root2": {"s"}, "out": {"sec"}, "TOP": {"root", "root2", "out"}}
 
 
+_REQ_N = [0]
+
+
 def make_request(path):
-    """A GeminiRequest whose .path is exactly `path` (what the protocol layer hands to handlers)."""
+    """The request a handler is given for `path`.  Every other time it is built by the real parser from the request line
+    (GeminiRequest.from_line - what the protocol layer does); when the parser refuses the line, or the other times, a
+    GeminiRequest whose .path is exactly `path` is constructed directly."""
+    _REQ_N[0] += 1
+    if _REQ_N[0] % 2 == 0:
+        try:
+            line = "gemini://h.ex" + path
+            if len(line.encode("utf-8")) <= 1022 and "\r" not in line and "\n" not in line:
+                return GeminiRequest.from_line(line)
+        except ValueError:
+            pass
     pu = ParsedURL(scheme="gemini", hostname="h.ex", port=1965, path=path, query="", fragment="",
                    normalized="gemini://h.ex" + path)
     return GeminiRequest(raw_url="gemini://h.ex" + path, parsed_url=pu)
@@ -191,7 +204,7 @@ def deep_paths(rep):
                 f.write(content)
             for listing in (False, True):
                 handler = StaticFileHandler(root, enable_directory_listing=listing)
-                for spelled in (rel, urllib.parse.quote(rel, safe="/")):
+                for spelled in (rel, rel, urllib.parse.quote(rel, safe="/"), urllib.parse.quote(rel, safe="/")):   # each through both request constructions
                     try:
                         resp = handler.handle(make_request(spelled))
                         st, body = resp.status, resp.body
